@@ -493,6 +493,18 @@ Inductive rh_result :=
 Definition round512 (n : N) : N :=
   if n mod 512 =? 0 then n else (n + (512 - n mod 512)) mod two64.
 
+(* the part of read_header behind the for(;;) loop *)
+Definition rh_finish (h : list N) (flags : N) (ver : tver) (out : thdr) (s : list N) : res rh_result :=
+  do o1 <- decode_header h flags out ver;
+  do r <- (if has_flag flags PAX_SPARSE_GNU_1_X then
+             do q <- read_gnu_new_sparse s (h_record o1);
+             let '(l, rec, s') := q in
+             Ok (set_record (set_sparse o1 l) rec, s')
+           else Ok (o1, s));
+  let (o2, s2) := r in
+  let o3 := match h_sparse o2 with [] => set_actual o2 (h_record o2) | _ => o2 end in
+  Ok (RH_hdr o3 s2).
+
 Fixpoint rh_loop (fuel : nat) (s : list N) (out : thdr) (flags : N) (prev_zero : bool) : res rh_result :=
   match fuel with
   | O => OutOfFuel
@@ -507,16 +519,7 @@ Fixpoint rh_loop (fuel : nat) (s : list N) (out : thdr) (flags : N) (prev_zero :
       do okc <- checksum_valid h;
       if negb okc then Err e_chksum else
       do typeflag <- bget h hoff_typeflag;
-      let finish (out : thdr) (s : list N) : res rh_result :=
-        do o1 <- decode_header h flags out ver;
-        do r <- (if has_flag flags PAX_SPARSE_GNU_1_X then
-                   do q <- read_gnu_new_sparse s (h_record o1);
-                   let '(l, rec, s') := q in
-                   Ok (set_record (set_sparse o1 l) rec, s')
-                 else Ok (o1, s));
-        let (o2, s2) := r in
-        let o3 := match h_sparse o2 with [] => set_actual o2 (h_record o2) | _ => o2 end in
-        Ok (RH_hdr o3 s2) in
+      let finish := rh_finish h flags ver in
       if typeflag =? c_TAR_TYPE_GNU_SLINK then
         do sz <- num_field h hoff_size hlen_size;
         if (sz <? 1) || (c_TAR_MAX_SYMLINK_LEN <? sz) then Err e_len else
